@@ -46,4 +46,10 @@ def nexts : List Op → Nat
   | .next :: ops => nexts ops + 1
   | .roc :: ops => nexts ops
 
+/-- the values handed out by the `next` calls of a run (`ops` and the run's results), in order -/
+def nextResults : List Op → List Nat → List Nat
+  | .next :: ops, v :: vs => v :: nextResults ops vs
+  | .roc :: ops, _ :: vs => nextResults ops vs
+  | _, _ => []
+
 end Rtp.Spec.Counter
